@@ -136,6 +136,12 @@ def antiJoin (on : Row → Row → B3) (l r : Table) : Table :=
 /-- `EXISTS (subquery)` is never UNKNOWN -/
 def exists3 (t : Table) : B3 := some (!t.isEmpty)
 
+/-- `v IN (vs)` with SQL's three-valued semantics: TRUE if some element equals v; otherwise UNKNOWN if v or some
+    element is NULL (and the list is not empty); otherwise FALSE -/
+def in3 (v : Val) : List Val → B3
+  | [] => some false
+  | x :: xs => or3 (eq3 v x) (in3 v xs)
+
 /-- δ (keeps the first occurrence) -/
 def distinct (t : Table) : Table := t.eraseDups
 
